@@ -121,4 +121,17 @@ CHECKS = {
               '(hooks suspending inside put, connection loss mid-send).'),
         note=COMMON_NOTE + 'Each correlator operation and each _handle_response run is atomic at this tier. log_id values are assumed distinct per message when judging attribution.',
         technique='Lean 4 theorems (single-step refinement lemmas, max-aggregation law, kernel-checked counter-examples for the excluded classes); differential correspondence through the real handler with a ledger predicate'),
+    'C02': dict(
+        text=('Proof, PARTIAL (tier 2, atomic handlers). Props/C02.lean over the model of get_delivery / get_segmented / the receipt '
+              'branch of ESME._handle_request: a receipt naming the id of an accepted unsegmented submit is handed over with '
+              'that submit\'s log_id and extra_data; an unknown id gives empty log_id/extra_data (never another identity); a '
+              'receipt without id is passed through untouched; for a segmented message a segment receipt yields the '
+              'placeholder while any sibling has no receipt yet and, at the last one, exactly one receipt carrying the '
+              'message\'s identity - the last failing one if any reported an error (receipt codes aggregate by maximum, every '
+              'error code ranks below SENT). The order-independence over ALL arrival orders of receipts and remaining '
+              'responses is covered by the correspondence + attribution predicate on generated histories (receipts before '
+              'sibling responses, TLV id, duplicates, unknown ids) and by finite kernel-checked tests, not yet by an '
+              'unbounded theorem. Reference reuse is the known finding recorded under C01.'),
+        note=COMMON_NOTE + 'Atomic handlers; receipt text parsing is C20 and PDU decoding C03/C04; segmentation references assumed unique among live messages.',
+        technique='Lean 4 theorems (single-step refinement lemmas, max-aggregation law); differential correspondence through the real handlers with an attribution predicate'),
 }
